@@ -132,7 +132,16 @@ func c16(r *rand.Rand, tier string, tr *trace.Buf) {
 	}
 	dmsg0x := []byte("0xfeedface")
 	dsig0x, _ := dk.Sign(dmsg0x)
-	dtrips := []trip{{"valid", dmsg, dsig[:], dpk[:]}, {"wrong-message", []byte("other"), dsig[:], dpk[:]}, {"flipped-signature", dmsg, flipped[:], dpk[:]},
+	dsigEmpty, _ := dk.Sign([]byte{})
+	dflipEmpty := dsigEmpty
+	dflipEmpty[200] ^= 8
+	dmsgHi := []byte("\xe9t\xc3\xa9 \xff\xfe\x80")
+	dsigHi, _ := dk.Sign(dmsgHi)
+	var dzero [dilithium.CryptoBytes]uint8
+	dtrips := []trip{{"valid-empty-message", []byte{}, dsigEmpty[:], dpk[:]}, {"flipped-signature-empty-message", []byte{}, dflipEmpty[:], dpk[:]},
+		{"wrong-message-empty", []byte{}, dsig[:], dpk[:]}, {"zero-signature-empty-message", []byte{}, dzero[:], dpk[:]},
+		{"valid-non-ascii-message", dmsgHi, dsigHi[:], dpk[:]},
+		{"valid", dmsg, dsig[:], dpk[:]}, {"wrong-message", []byte("other"), dsig[:], dpk[:]}, {"flipped-signature", dmsg, flipped[:], dpk[:]},
 		{"valid-0x-message", dmsg0x, dsig0x[:], dpk[:]}, {"wrong-message-bare-variant", []byte("feedface"), dsig0x[:], dpk[:]}}
 	emitD := func(class string, msg []byte, sigS, pkS string) {
 		e := wEvent{Ev: "wrap", Fn: "dverify", Class: class, Args: [][]int{ints([]byte(sigS)), ints([]byte(pkS))},
@@ -213,7 +222,18 @@ func c16(r *rand.Rand, tier string, tr *trace.Buf) {
 	xmsg0x := "0xdeadbeef"
 	xsig0x, _ := xk.Sign([]byte(xmsg0x))
 	xsigBare, _ := xk.Sign([]byte("deadbeef"))
-	xtrips := []trip{{"valid", []byte(xmsg), xsig, xpk[:]}, {"wrong-message", []byte("other"), xsig, xpk[:]}, {"flipped-signature", []byte(xmsg), xflip, xpk[:]},
+	// messages that are not ASCII text (bytes >= 0x80, invalid UTF-8) and the empty message
+	xmsgHi := "\xe9t\xc3\xa9 \xff\xfe\x80"
+	xsigHi, _ := xk.Sign([]byte(xmsgHi))
+	xsigE9, _ := xk.Sign([]byte("\xe9"))
+	xsigEmpty, _ := xk.Sign([]byte{})
+	xflipEmpty := dup(xsigEmpty)
+	xflipEmpty[60] ^= 2
+	xtrips := []trip{{"valid-non-ascii-message", []byte(xmsgHi), xsigHi, xpk[:]}, {"wrong-message-utf8-of-the-byte", []byte("\xc3\xa9"), xsigE9, xpk[:]},
+		{"valid-single-high-byte", []byte("\xe9"), xsigE9, xpk[:]},
+		{"valid-empty-message", []byte{}, xsigEmpty, xpk[:]}, {"flipped-signature-empty-message", []byte{}, xflipEmpty, xpk[:]},
+		{"wrong-message-empty", []byte{}, xsig, xpk[:]},
+		{"valid", []byte(xmsg), xsig, xpk[:]}, {"wrong-message", []byte("other"), xsig, xpk[:]}, {"flipped-signature", []byte(xmsg), xflip, xpk[:]},
 		{"valid-0x-message", []byte(xmsg0x), xsig0x, xpk[:]}, {"wrong-message-0x-variant", []byte(xmsg0x), xsigBare, xpk[:]}, {"wrong-message-bare-variant", []byte("deadbeef"), xsig0x, xpk[:]}}
 	emitX := func(class string, msg string, sigS, pkS string) {
 		e := wEvent{Ev: "wrap", Fn: "xverify", Class: class, Args: [][]int{ints([]byte(sigS)), ints([]byte(pkS))},
